@@ -61,6 +61,15 @@ OWNERS = [
 ]
 
 
+C07_PLACEMENT = ("step.cursor", "step.recinv.", "step.hyperslab", "step.dataset_index_advanced")
+
+
+def _continuous_unchunked_possible(o):
+    import z3 as _z3
+    from dvc import smt as _smt
+    return _smt.quick_sat(list(o.hyps) + [_z3.Int("w.is_continuous") != 0, _z3.Int("w.needs_chunking") == 0], 1000, full=False)
+
+
 def owned(label, pid):
     for pref, pids in OWNERS:
         if label.startswith(pref):
@@ -85,6 +94,9 @@ def add_step_obligations(ck, tu, X, want, units=("index", "step", "blocks")):
     def take(obls):
         for o in obls:
             if owned(o.label, pid):
+                sink.append(o)
+            elif pid == "C07" and o.label.startswith(C07_PLACEMENT) and _continuous_unchunked_possible(o):
+                # continuous files expose slot k of the window for sample k: the placement clauses carry C07 on the paths of that mode
                 sink.append(o)
 
     if "index" in units:
